@@ -23,7 +23,8 @@ pub fn run_sat(case: &Value, _seed: u64) -> Outcome {
     // version spelled with an explicit epoch 0 ("0:1.0" and "1.0" are the same Debian version, not the same text)
     for chain_id in 0..4 {
         let chain = if chain_id >= 2 { 0 } else { chain_id };
-        let names: HashMap<&str, &str> = [("p", if chain == 0 { "libfoo2.0-dev" } else { "g++" }), ("q", if chain == 0 { "bar" } else { "x~y" })].into_iter().collect();
+        // (chain 3: q's name extends p's name - a lookup must compare whole names)
+        let names: HashMap<&str, &str> = if chain_id == 3 { [("p", "libfoo"), ("q", "libfoo-dev")].into_iter().collect() } else { [("p", if chain == 0 { "libfoo2.0-dev" } else { "g++" }), ("q", if chain == 0 { "bar" } else { "x~y" })].into_iter().collect() };
         let ver0 = |rank: u64| -> String { let v = VERS[chain][rank as usize]; if chain == 1 && rank >= 3 { format!("1:{}", v) } else { v.to_string() } };
         let ver = |rank: u64| -> String { if chain_id == 3 { format!("0:{}", ver0(rank)) } else { ver0(rank) } };
         let ver_inst = |rank: u64| -> String { if chain_id == 2 { format!("0:{}", ver0(rank)) } else { ver0(rank) } };
